@@ -200,6 +200,53 @@ func eapAttrPacket(r *prng.Rand, code, method byte, variant int) []byte {
 	return b
 }
 
+// multiPayload builds payload container contents of type "multiple payloads". variant:
+// 0-1 consistent; 2 the last optional IE of an entry crosses the entry end but stays inside
+// the container; 3 an optional IE runs past the container; 4 an entry length runs past the
+// container; 5 no entries; 6 entry count larger than the entries present; 7 an entry too
+// short for its header; 8 IE count larger than the IEs present; 9 zero-length IEs.
+func multiPayload(r *prng.Rand, variant int) []byte {
+	entry := func(nIE int, ieLens []int, payload int, declIE int) []byte {
+		body := []byte{byte(declIE)<<4 | byte(1+r.Intn(5))}
+		for i := 0; i < nIE; i++ {
+			body = append(body, []byte{0x12, 0x24, 0x59, 0x37}[r.Intn(4)], byte(ieLens[i]))
+			n := ieLens[i]
+			if n > 40 {
+				n = r.Intn(3)
+			}
+			body = append(body, r.Bytes(n)...)
+		}
+		body = append(body, r.Bytes(payload)...)
+		return append([]byte{byte(len(body) >> 8), byte(len(body))}, body...)
+	}
+	switch variant % 10 {
+	case 0:
+		return append([]byte{1}, entry(1, []int{1}, r.Range(1, 8), 1)...)
+	case 1:
+		out := []byte{2}
+		out = append(out, entry(2, []int{1, 2}, r.Range(1, 8), 2)...)
+		return append(out, entry(0, nil, r.Range(1, 8), 0)...)
+	case 2:
+		// entry 1: one IE whose declared length reaches into entry 2
+		e1 := []byte{0x00, 0x04, 0x12, 0x12, 0x03, 0x05}
+		return append(append([]byte{2}, e1...), entry(0, nil, 3, 0)...)
+	case 3:
+		return append([]byte{1}, 0x00, 0x04, 0x11, 0x12, 0xf0, 0x05)
+	case 4:
+		return append([]byte{1}, 0x7f, 0xff, 0x01, 0xaa)
+	case 5:
+		return []byte{0}
+	case 6:
+		return append([]byte{9}, entry(1, []int{1}, 2, 1)...)
+	case 7:
+		return []byte{1, 0x00, 0x00}
+	case 8:
+		return append([]byte{1}, entry(1, []int{1}, 2, 7)...)
+	default:
+		return append([]byte{1}, entry(3, []int{0, 0, 0}, 0, 3)...)
+	}
+}
+
 // pppUnit builds one configuration protocol unit (id, len, contents) whose
 // contents are a PPP packet (code, identifier, length, data) of pl octets,
 // followed by pad octets of zero or non-zero padding.
@@ -421,6 +468,25 @@ func domainPDUs(sp *refcodec.Spec, msgs []*refcodec.Msg, r *prng.Rand, thorough 
 				}
 			}
 			switch {
+			case sl.Name == "PayloadContainer":
+				// payload container type "multiple payloads" (TS 24.501 9.11.3.39): number of
+				// entries, then per entry its length, (number of optional IEs | type), the
+				// optional IEs (type, length, value) and the payload
+				for variant := 0; variant < 10; variant++ {
+					pl := refcodec.NewPlan(def, r, 3)
+					for j := range pl.Mand {
+						if def.Slots[pl.Mand[j].Slot].Name == "SpareHalfOctetAndPayloadContainerType" && len(pl.Mand[j].Val) == 1 {
+							pl.Mand[j].Val[0] = pl.Mand[j].Val[0]&0xf0 | 0x0f
+						}
+					}
+					mp := multiPayload(r, variant)
+					if sl.Mandatory {
+						pl.Mand[si].Decl, pl.Mand[si].Val = len(mp), mp
+					} else {
+						pl.Opt = append(pl.Opt, refcodec.OptElem(def, si, len(mp), mp, r))
+					}
+					add(def, "multi-payload", pl.Bytes(), pl.Canonical())
+				}
 			case sl.Name == "EAPMessage":
 				for code := 0; code <= 7; code++ {
 					for _, n := range []int{4, 5, 6, 8, 20, 260} {
